@@ -133,6 +133,60 @@ func (p Params) Body() func() {
 	}
 }
 
+// twoRounds: round 1 = one waiter whose context a thread cancels while a Broadcast is issued;
+// round 2 (after everything of round 1 has settled) = a fresh waiter and one Signal issued after it
+// has released the lock. Whatever bookkeeping round 1 left behind must not cost round 2 its wake-up.
+func TwoRounds() func() {
+	return func() {
+		l := &hx.Locker{}
+		c := xsync.NewContextCond(l)
+		ctx1, cancel1 := context.WithCancel(context.Background())
+		var wg sync.WaitGroup
+		entered := make(chan struct{}, 2)
+		l.OnUnlock = func() {
+			select {
+			case entered <- struct{}{}:
+			default:
+			}
+		}
+		wg.Add(3)
+		go func() {
+			defer wg.Done()
+			l.Lock()
+			if err := c.Wait(ctx1); err == nil {
+				l.Unlock()
+			}
+		}()
+		go func() { defer wg.Done(); <-entered; c.Broadcast() }()
+		go func() { defer wg.Done(); cancel1() }()
+		wg.Wait()
+		// round 2
+		for len(entered) > 0 {
+			<-entered
+		}
+		woke := false
+		done := make(chan struct{})
+		go func() {
+			defer close(done)
+			l.Lock()
+			if err := c.Wait(context.Background()); err == nil {
+				hx.Atomically(func() { woke = true })
+				l.Unlock()
+			}
+		}()
+		<-entered
+		c.Signal()
+		hx.Quiesce()
+		ok := false
+		hx.Atomically(func() { ok = woke })
+		if !ok {
+			hx.Fail("lost-wakeup-in-second-round", "after a first round (one waiter, a Broadcast and a cancellation) had settled, a fresh waiter released the lock and one Signal was issued, yet the waiter is still blocked")
+		}
+		<-done
+		hx.Outcome("ok")
+	}
+}
+
 func All() []Params {
 	var out []Params
 	for k := 1; k <= 3; k++ {
